@@ -125,6 +125,14 @@ def run_case(case, ctx):
                         g = f[iter(s)]
                         if g != [exp[i] for i in s]:
                             fail("iterable-selector/wrong", "f[iter(%r)] differs" % (s,))
+                        g = f[tuple(s)]
+                        if g != [exp[i] for i in s]:
+                            fail("iterable-selector/wrong", "f[tuple(%r)] differs" % (s,))
+                        if s:
+                            r_ = range(min(s), max(s) + 1)
+                            g = f[r_]
+                            if g != [exp[i] for i in r_]:
+                                fail("iterable-selector/wrong", "f[%r] differs" % (r_,))
                         between = True
                     elif k == "len":
                         if len(f) != len(exp):
